@@ -42,7 +42,7 @@ class Prop(BaseProp):
             "regime)")
     budget = {"quick": 700, "thorough": 72000}
     must_see = ["reconcile_outside_kept_1e-7", "reconcile_outside_dropped_1e-5", "reconcile_different_edges",
-                "reconcile_duplicates", "reconcile_sorted_input", "different_edges_measure_call", "dirty_call", "reconcile_false_call", "mrts_auto", "constructor_alias_checked",
+                "reconcile_duplicates", "reconcile_sorted_input", "different_edges_measure_call", "inplace_edit_history", "dirty_call", "reconcile_false_call", "mrts_auto", "constructor_alias_checked",
                 "readonly_calls"] + ["ep:" + e[0] for e in common.ENTRY_POINTS] + ["ep:filter_by_spike_sync"]
     arm_files = [("pyspike/spikes.py", ["reconcile_spike_trains", "reconcile_spike_trains_bi"]), ("pyspike/generic.py", None)]
     assumptions = ["times within 4 ulp of the 1e-6 tolerance boundary are not generated (the statement's tolerance is "
@@ -203,6 +203,34 @@ class Prop(BaseProp):
             r_off = ctx.call(fn, *a_clean, Reconcile=False, **kw)
             d = common.result_equal(ps, r_off, r_clean)
             ctx.expect(d is None, "reconcile-off-differs:" + name, "%s(Reconcile=False) on valid input differs from the default: %s" % (name, d))
+        # ---- history on ONE object: use it, edit its spike array in place (a user's own action), use it again.
+        # The second result must be the result for the object's CURRENT content (state cached across calls would show).
+        ctx.count("inplace_edit_history")
+        h = ps.SpikeTrain(np.array(case["dirty"][0], dtype=float), [ts, te])
+        other = clean[1]
+        for name in case["entry"][:2]:
+            _, form, kws, _iv = [e for e in common.ENTRY_POINTS if e[0] == name][0]
+            fn = getattr(ps, name)
+            kw = {q: kwc[q] for q in kws}
+            args1 = (h, other) if form in ("bi", "any") else ([h, other],)
+            ctx.call(fn, *args1, **kw)
+            if len(h.spikes):
+                T_ = te - ts
+                # shift every spike towards the middle of the recording, in place (same array object)
+                h.spikes *= 0.5
+                h.spikes += (ts + te) / 4.0
+            fresh = ps.SpikeTrain(h.spikes.copy(), [ts, te])
+            args2 = (h, other) if form in ("bi", "any") else ([h, other],)
+            args3 = (fresh, other) if form in ("bi", "any") else ([fresh, other],)
+            r_used = ctx.call(fn, *args2, **kw)
+            r_fresh = ctx.call(fn, *args3, **kw)
+            d = common.result_equal(ps, r_used, r_fresh)
+            ctx.expect(d is None, "stale-state-after-inplace-edit:" + name,
+                       "%s on a train that was used before and then edited in place differs from a fresh train with the same content: %s" % (name, d))
+        rr = ctx.call(reconcile_spike_trains, [h, other], _name="reconcile_spike_trains")
+        want = sorted({float(t) for t in h.spikes.tolist() if ts - EPS < t < te + EPS})
+        ctx.expect(np.asarray(rr[0].spikes, dtype=float).tolist() == want, "stale-state-after-inplace-edit:reconcile",
+                   "reconcile of an edited train returns %s, its current distinct spike times are %s" % (common.short(np.asarray(rr[0].spikes).tolist()), common.short(want)))
         # filter
         ctx.count("ep:filter_by_spike_sync")
         kw = {"MRTS": kwc["MRTS"], "max_tau": kwc["max_tau"]}
